@@ -74,6 +74,8 @@ gbuf_parse_place(const char *s, int *place, unsigned *align)
                 *place = PL_END;
         else if (s[0] == 's')
                 *place = PL_START;
+        else if (s[0] == 'g')
+                *place = PL_4G;
         else if (s[0] == 'a') {
                 *place = PL_MID;
                 *align = (unsigned) atoi(s + 1);
@@ -89,7 +91,29 @@ gbuf_alloc(gbuf *g, size_t len, int place, unsigned align)
         size_t body = ((len + 2 * PG - 1) / PG + 1) * PG; /* room for slack on either side */
         memset(g, 0, sizeof(*g));
         g->maplen = body + 2 * PG;
-        g->map = mmap(NULL, g->maplen, PROT_READ | PROT_WRITE, MAP_PRIVATE | MAP_ANONYMOUS, -1, 0);
+        uint8_t *want = NULL; /* PL_4G / PL_AT4G: the address the buffer must have */
+        if (place == PL_4G || place == PL_AT4G) {
+                /* a buffer that straddles (PL_4G) or starts at (PL_AT4G) a multiple of 4 GiB: address arithmetic done in 32
+                 * bits, or a pointer tested through its low half, is exact everywhere else */
+                for (int attempt = 0; attempt < 32 && !want; attempt++) {
+                        uint64_t B = (uint64_t) (0x20 + ((__atomic_fetch_add(&gb_counter, 1, __ATOMIC_RELAXED) * 7) & 0x3ff)) << 32;
+                        uint64_t pp = place == PL_AT4G ? B : B - ((len / 2 + 63) & ~(uint64_t) 63);
+                        uint64_t mp = ((pp - 1024) & ~(uint64_t) (PG - 1)) - PG;
+                        void *m = mmap((void *) mp, g->maplen, PROT_READ | PROT_WRITE, MAP_PRIVATE | MAP_ANONYMOUS | MAP_FIXED_NOREPLACE, -1, 0);
+                        if (m == MAP_FAILED)
+                                continue;
+                        if ((uint64_t) m != mp) {
+                                munmap(m, g->maplen);
+                                continue;
+                        }
+                        g->map = m;
+                        want = (uint8_t *) pp;
+                }
+                if (!want)
+                        place = PL_MID;
+        }
+        if (!want)
+                g->map = mmap(NULL, g->maplen, PROT_READ | PROT_WRITE, MAP_PRIVATE | MAP_ANONYMOUS, -1, 0);
         if (g->map == MAP_FAILED)
                 die("mmap %zu: %s", g->maplen, strerror(errno));
         mprotect(g->map, PG, PROT_NONE);
@@ -98,7 +122,9 @@ gbuf_alloc(gbuf *g, size_t len, int place, unsigned align)
         g->len = len;
         g->place = place;
         g->canary = __atomic_fetch_add(&gb_counter, 1, __ATOMIC_RELAXED);
-        if (place == PL_END)
+        if (want)
+                g->p = want;
+        else if (place == PL_END)
                 g->p = hi - len;
         else if (place == PL_START)
                 g->p = lo;
@@ -135,7 +161,11 @@ obj_reuse(void)
 int
 gbuf_alloc_obj(gbuf *g, size_t len, unsigned al)
 {
-        return gbuf_alloc(g, len, PL_MID, obj_misalign(al));
+        unsigned off = obj_misalign(al);
+        /* one object in eight sits exactly at a multiple of 4 GiB (the low half of its address is zero) */
+        if ((splitmix64(((uint64_t) (uint32_t) vc_hidden_seed << 24) ^ 0x4617 ^ (obj_counter * 0x9E3779B97F4A7C15ull)) & 7) == 0)
+                return gbuf_alloc(g, len, PL_AT4G, 0);
+        return gbuf_alloc(g, len, PL_MID, off);
 }
 
 /* The caller moves a live object (struct copy, realloc): same bytes at a new address with another legal alignment; the old
